@@ -301,7 +301,8 @@ def gen_line(rng, quick):
     if r < 0.22:
         return 'walk', g_walk(rng, n, rng.choice([1, 2, 5, 20]), rng.choice([5, 30, 1000]))
     if r < 0.42:
-        return 'zigzag', g_zigzag(rng, max(3, n), rng.choice([1, 2, 3, 5]), rng.choice([1, 3, 8]))
+        amp = rng.choice([1, 2, 3, 5])
+        return 'zigzag%d' % amp, g_zigzag(rng, max(3, n), amp, rng.choice([1, 3, 8]))
     if r < 0.57:
         return 'collinear', g_collinear(rng, max(3, n))
     if r < 0.70:
@@ -315,12 +316,14 @@ def gen_line(rng, quick):
     return 'rect', g_rect_ring(rng)
 
 
-def gen_tol(rng, pts):
+def gen_tol(rng, pts, hint=None):
     ext = 1
     if pts:
         xs = [p[0] for p in pts]; ys = [p[1] for p in pts]
         ext = max(max(xs) - min(xs), max(ys) - min(ys), 1)
     r = rng.random()
+    if hint and r < 0.5:
+        return hint * rng.choice([1, 1, 1, 2, 0.5, math.sqrt(2), math.sqrt(5), 5])
     if r < 0.16: return 0
     if r < 0.40: return rng.choice([1, 2, 3, 5, 0.5, 1.5, 2.5])
     if r < 0.60: return rng.choice([0.7, 1.3, 0.1, 2.2, 3.7, 1e-9, 0.9999999999999999, 1.0000000000000002])
@@ -433,6 +436,34 @@ def gen_coverage(rng, quick):
         S = rng.choice([8, 16, 16, 40])
         lat = Lattice(rng, W, H, S, rng.choice([0, 0, 1, S // 5]), rng.choice([0, 1, 2, 2]))
         regs = grow_regions(rng, W, H, rng.randint(2, max(2, W * H // 2)), rng.choice([0, 0, 0.15]))
+        if rng.random() < 0.3:
+            # donut: the border cells form one region with a hole; the inner cells are islands filling it (some left out: a gap)
+            W, H = rng.randint(3, 5), rng.randint(3, 5)
+            lat = Lattice(rng, W, H, S, rng.choice([0, 0, 1, S // 5]), rng.choice([0, 1, 2, 2]))
+            border = [(i, j) for i in range(W) for j in range(H) if i in (0, W - 1) or j in (0, H - 1)]
+            inner = [(i, j) for i in range(1, W - 1) for j in range(1, H - 1)]
+            regs = [border]
+            if rng.random() < 0.3 and W >= 4:
+                regs = [[c for c in border if c[0] < W // 2 or (c[0] == W // 2 and c[1] == 0)], [c for c in border if not (c[0] < W // 2 or (c[0] == W // 2 and c[1] == 0))]]
+            rng.shuffle(inner)
+            k = rng.randint(1, max(1, len(inner)))
+            groups = {}
+            for c in inner:
+                if rng.random() < 0.15 and len(inner) > 1:
+                    continue                      # gap
+                groups.setdefault(rng.randrange(k), []).append(c)
+            for gcells in groups.values():
+                # keep only edge-connected groups: split into connected components
+                todo = set(gcells)
+                while todo:
+                    comp = [todo.pop()]; i = 0
+                    while i < len(comp):
+                        c = comp[i]; i += 1
+                        for d in ((1, 0), (-1, 0), (0, 1), (0, -1)):
+                            q = (c[0] + d[0], c[1] + d[1])
+                            if q in todo:
+                                todo.remove(q); comp.append(q)
+                    regs.append(comp)
         elems = []
         ok = True
         for cells in regs:
@@ -531,6 +562,10 @@ def gen_geometry0(rng, quick, r):
                 for pg in e:
                     ps.append(('Polygon', [[(x + 1000 * k, y) for x, y in rg] for rg in pg]))
             return 'multipolygon', ('MultiPolygon', ps)
+    if r < 0.92:
+        elems = gen_coverage(rng, True)
+        if elems:
+            return 'tiling', cov_geom(elems)
     parts = []
     for _ in range(rng.randint(1, 3)):
         parts.append(gen_geometry0(rng, quick, rng.random())[1] if rng.random() < 0.8 else ('Point', (rng.randint(0, 9), rng.randint(0, 9))))
@@ -724,7 +759,10 @@ def stream_dpl(ctx, rr, n):
     cases = []
     for _ in range(n):
         kind, pts = gen_line(rng, ctx.quick)
-        tol = gen_tol(rng, pts)
+        hint = None
+        if kind.startswith('zigzag'):
+            hint = int(kind[6:]); kind = 'zigzag'
+        tol = gen_tol(rng, pts, hint)
         closed = len(pts) >= 4 and pts[0] == pts[-1]
         cases.append(dict(kind=kind, pts=pts, tol=tol, preserve=rng.choice([0, 0, 1]) if closed else rng.choice([0, 1])))
     # corpus of hand-made boundary cases (DESIGN C18 witnesses)
@@ -1244,3 +1282,92 @@ def stream_cov(ctx, rr, n):
             ctx.broken.append(dict(kind='generator', name='coverage distribution', detail='no coverage case with %s' % need))
     if cases:
         ctx.sample(cases[0]['line'][:300])
+
+
+# ------------------------------------------------------------------------------------------------ stream G: derived inputs
+def stream_derived(ctx, rr, n):
+    """inputs derived with GEOSDensify_r (inserts vertices ON the segments: the distance-0 case) and GEOSRemoveRepeatedPoints_r"""
+    rng = ctx.rng
+    base = []
+    for _ in range(n):
+        label, g, _h = gen_geometry(rng, ctx.quick)
+        ext = max([abs(v) for p in all_pts(flatten(g)) for v in p] + [4])
+        if rng.random() < 0.6:
+            base.append(('DENS', rng.choice([1, 2, 0.5, max(1, ext // 8), 3.7]), g, label))
+        else:
+            base.append(('RRP', rng.choice([0, 0, 1, 2]), g, label))
+    outs = [parse_impl(o) for o in rr.impl(['%s %s %s' % (op, num(t), hexwkb(g)) for op, t, g, _ in base])]
+    cases = []
+    for (op, t, g, label), o in zip(base, outs):
+        if 'geom' not in o or o.get('v') != '1':
+            continue
+        comps = flatten(o['geom'])
+        if not comps:
+            continue
+        tol = rng.choice([0, 0, 1e-9, 0.5, 1, 2])
+        cases.append(dict(label='%s(%s)' % (op.lower(), label.split(':')[0]), op=rng.choice(['DP', 'TP']), tol=tol, geom=o['geom']))
+    res = judge_simpl(rr, cases)
+    dist = {}
+    for i, (c, v) in enumerate(zip(cases, res)):
+        d = dist.setdefault(c['label'] + '/' + c['op'], dict(n=0, skipped_invalid_input=0, dropped=0, tol0=0))
+        d['n'] += 1
+        if v['status'] == 'skip':
+            d['skipped_invalid_input'] += 1; continue
+        ctx.count(('derived', c['line']), bool(v.get('dropped')))
+        d['dropped'] += 1 if v.get('dropped') else 0; d['tol0'] += 1 if c['tol'] == 0 else 0
+        if v['status'] in ('violation', 'corr'):
+            sh = None
+            try:
+                sh = shrink_geom(rr, c, judge_simpl, v['status'])
+            except Exception:
+                pass
+            report(ctx, 'derived', i, c, v, sh)
+        elif v['status'] == 'known':
+            report(ctx, 'derived', i, c, v)
+    ctx.notes.setdefault('distribution', {})['derived'] = dist
+
+
+# ------------------------------------------------------------------------------------------------ entry point
+def run(ctx):
+    ctx.cov['rule'] = ('inputs: open / closed lines (random walks, zigzags at the tolerance, collinear runs and repeated points, exactly tied '
+                       'distances, vertices projecting beyond the chord, stars, thin triangles, rectilinear rings), polygons with holes (lattice '
+                       'regions with shared wiggly edges, stars, bump-and-spike), multi-geometries, collections, edge-matched tilings with 3- and '
+                       '4-way nodes, holes, islands and gaps; integer coordinates and the same mapped to full-precision binary64; tolerances 0 .. '
+                       '> extent; hull parameters 0..1, both modes and sides; boundary preservation on / off. non-trivial = the call removed at '
+                       'least one vertex (coordinate level: and kept an interior one); distinct by call text')
+    ctx.assumptions += [
+        'model M works on exact integers (binary64 inputs are scaled by one power of two): the implementation compares ROUNDED distances, so '
+        'model and implementation are compared for equality only where no two compared quantities are within 2^-30 (relative, squared) of '
+        'each other - those cases, and all binary64 cases, are judged by the relational clauses only',
+        'relational clauses allow for the rounding of the implementation: tolerance^2 * (1 + 2^-40) on integer inputs; '
+        '(tol * (1 + 2^-30) + 2^-38 * max|ordinate|)^2 on full-precision inputs',
+        'validity of inputs and outputs is GEOSisValid_r / GEOSCoverageIsValid_r (not an exact model); the union is GEOSCoverageUnion_r, '
+        'its area evaluated exactly; "same union up to tolerance" is read as: area change <= (removed boundary vertices) * tol^2 '
+        '(each Visvalingam-Whyatt removal cuts a corner of area <= tol^2) and GEOS\' own symmetric difference within the same bound',
+        'polygon-hull containment is checked exactly at all vertices and edge midpoints (even-odd location) and by the area order, not on the continuum',
+        'distances over the reals: theorems depend on the standard library\'s real-number axioms only',
+        'correspondence is sampled (generator quality bounds it)']
+    ok_build = ctx.build_repo('rel')
+    ok_coq, ax = ctx.coq_build('Properties_C18')
+    drv = ctx.ocaml_driver('C18')
+    hexe = os.path.join(BUILD, 'bin', 'c18')
+    if not ok_build or not ctx.cxx(os.path.join(ROOT, 'harness/c18.cpp'), hexe, 'rel'):
+        return
+    if not drv:
+        return
+    rr = R(ctx, drv, hexe)
+    q = ctx.quick
+    stream_dpl(ctx, rr, 1500 if q else 20000)
+    stream_simpl(ctx, rr, 700 if q else 8000, 'dp', ['DP'])
+    stream_simpl(ctx, rr, 700 if q else 8000, 'tp', ['TP'])
+    stream_simpl(ctx, rr, 400 if q else 5000, 'dbl', ['DP', 'TP'], doubles=True)
+    stream_derived(ctx, rr, 200 if q else 2500)
+    stream_hull(ctx, rr, 400 if q else 5000)
+    stream_cov(ctx, rr, 300 if q else 4000)
+    ctx.cov['traces_validated_against_impl'] = ctx.cov['evaluations']
+    # self-check of the generators against the case splits of the proofs
+    dist = ctx.notes.get('distribution', {})
+    tot = lambda st, k: sum(d.get(k, 0) for d in dist.get(st, {}).values() if isinstance(d, dict))
+    for st, k in [('dp', 'collapse'), ('dp', 'repair'), ('dp', 'model_equal'), ('dp', 'tol0'), ('tp', 'dropped'), ('tp', 'tol0'), ('dbl', 'dropped'), ('hull', 'dropped')]:
+        if tot(st, k) == 0:
+            ctx.broken.append(dict(kind='generator', name='%s distribution' % st, detail='no case with %s generated' % k))
